@@ -30,7 +30,7 @@ def _class_src(name, base, methods):
     return '\n'.join(lines) + '\n'
 
 
-def _build(shape, inp, tag):
+def _build(shape, inp, tag, **conf):
     """shape: {(owner, name): [versions]} -> (object, consumers)"""
     ns = {'SyncObj': SyncObj, 'SyncObjConsumer': SyncObjConsumer, 'replicated': replicated}
     owners = sorted(set(o for o, _ in shape) | {0})
@@ -39,7 +39,7 @@ def _build(shape, inp, tag):
         exec(_class_src('K%s%d' % (tag, o), 'SyncObj' if o == 0 else 'SyncObjConsumer', ms), ns)
     consumers = [ns['K%s%d' % (tag, o)]() for o in owners if o != 0]
     now = 0.0
-    obj, tr = so.make('a', ['b'], so.Clock(now), inp, cls=ns['K%s0' % tag], consumers=consumers)
+    obj, tr = so.make('a', ['b'], so.Clock(now), inp, cls=ns['K%s0' % tag], consumers=consumers, **conf)
     return obj, consumers, tr
 
 
@@ -154,8 +154,8 @@ class Acc2(Acc):
             bounds='committed batch of 3 entries: a VERSION entry (requested version symbolic 0..3) at position pos, add(x) before/after it; own code version 0 or 2, enabled version symbolic 0..own; two ticks')
 def V4(inp, pos, own=0):
     """a node that lacks an enabled version stops applying: nothing at or after an unsupported VERSION entry is applied,
-    the applied index stops just before it, no entry is applied twice on later ticks; a VERSION entry the node supports -
-    whatever the currently enabled version - is applied like any other entry and the batch completes."""
+    the applied index stops just before it, no entry is applied twice on later ticks; a VERSION entry the node supports
+    is applied like any other entry and the batch completes; it raises the enabled version, never lowers it."""
     now = inp.real('now', 0)
     o, tr = so.make('a', ['b', 'c'], so.Clock(now), inp, cls=Acc2 if own == 2 else Acc)
     cmds.install(inp)
@@ -193,23 +193,39 @@ def V4(inp, pos, own=0):
     after_ = [(Not(unsupported), x) for i, x in adds if i > pos]
     cl['entries_before_and_after'] = _seq_matches(o.seq, before + after_)
     cl['applied_index_stops_before_unsupported_version'] = Eq(applied, Ite(unsupported, 1 + pos, 4))
-    cl['enabled_version'] = Eq(o.getCodeVersion(), Ite(unsupported, en, w))
+    # C17: a request for a lower version than the enabled one is rejected wherever it ends up in the common sequence (two requests
+    # submitted concurrently each pass the submitter's local check): the enabled version never decreases
+    cl['enabled_version'] = Eq(o.getCodeVersion(), Ite(unsupported, en, core.Max(en, w)))
     cl['callbacks_only_for_applied_entries_once'] = And([Iff(Or(i < pos, Not(unsupported)), len(r.calls) == 1) if len(r.calls) <= 1 else False for i, r in enumerate(recs)])
     return Res(cl, nontrivial=unsupported, obs=lambda: dict(pos=pos, own=own, enabled=show(en), wanted=show(w), seq=show(o.seq), applied=show(applied),
                                                             calls=[len(r.calls) for r in recs], exc=show(exc)), vars=dict(unsupported=unsupported))
 
 
-@obligation('V5', props=('C17', 'C09'), quick=[dict()], stubs=_STUBS + ('real in-memory Serializer (gzip + pickle)',),
-            bounds='f with versions {0,1}, {0,2}, {0,1,3}; enabled version 0..3 (enumerated: the snapshot goes through the real pickle)')
-def V5(inp):
+@obligation('V5', props=('C17', 'C09'), quick=[dict(), dict(custom=True)], stubs=_STUBS + ('real Serializer: in memory (gzip + pickle), or a user serializer/deserializer pair that stores the opaque data it is handed in a real temporary file',),
+            bounds='f with versions {0,1}, {0,2}, {0,1,3}; enabled version 0..3 (enumerated: the snapshot goes through the real pickle); built-in or user-supplied serializer')
+def V5(inp, custom=False):
     """after loading a snapshot taken after a version switch, the enabled version and the name table agree: a call uses the
     newest implementation not above the restored enabled version."""
     sets = ([0, 1], [0, 2], [0, 1, 3])
     fv = sets[inp.choice('fvers', len(sets))]
     en = inp.choice('enabled', 4)
     inp.assume(en <= max(fv))
-    a, _, _ = _build({(0, 'f'): fv}, inp, 'A')
-    b, _, _ = _build({(0, 'f'): fv}, inp, 'B')
+    conf = {}
+    if custom:
+        import tempfile, os, shutil
+        d = tempfile.mkdtemp(prefix='pvf-v5-')
+        try:
+            return _v5(inp, fv, en, dict(fullDumpFile=os.path.join(d, 'dump'), useFork=False,
+                                         serializer=lambda fn, data: open(fn, 'wb').write(cmds.real_pickle.dumps(('user state', data))),
+                                         deserializer=lambda fn: cmds.real_pickle.loads(open(fn, 'rb').read())[1]), custom)
+        finally:
+            shutil.rmtree(d, ignore_errors=True)
+    return _v5(inp, fv, en, conf, custom)
+
+
+def _v5(inp, fv, en, conf, custom):
+    a, _, _ = _build({(0, 'f'): fv}, inp, 'A', **conf)
+    b, _, _ = _build({(0, 'f'): fv}, inp, 'B', **conf)
     ver_cmd = so_mod._bchr(so_mod._COMMAND_TYPE.VERSION) + so_mod.pickle.dumps(en)
     so_mod.pickle = cmds.real_pickle
     _, exc = guard(getattr(a, so.P + 'doApplyCommand'), ver_cmd)
@@ -218,13 +234,18 @@ def V5(inp):
     a.forceLogCompaction()
     _, exc1 = guard(getattr(a, so.P + 'tryLogCompaction'))
     ser_a, ser_b = get(a, 'serializer'), get(b, 'serializer')
-    ser_b._Serializer__inMemorySerializedData = ser_a._Serializer__inMemorySerializedData
+    if custom:
+        import os
+        taken = os.path.exists(conf['fullDumpFile'])
+    else:
+        ser_b._Serializer__inMemorySerializedData = ser_a._Serializer__inMemorySerializedData
+        taken = ser_a._Serializer__inMemorySerializedData is not None
     _, exc2 = guard(getattr(b, so.P + 'loadDumpFile'), True)
     best = max(x for x in fv if x <= en)
     cl = {'no_exception': exc is None and exc1 is None and exc2 is None}
-    cl['snapshot_taken'] = ser_a._Serializer__inMemorySerializedData is not None
+    cl['snapshot_taken'] = taken
     cl['enabled_version_restored'] = b.getCodeVersion() == en
     name, e3 = guard(b._getFuncName, 'f')
     cl['name_table_matches_restored_version'] = e3 is None and name == 'f_v%d' % best
     cl['source_node_consistent'] = a._getFuncName('f') == 'f_v%d' % best
-    return Res(cl, nontrivial=en > 0, obs=lambda: dict(fvers=fv, enabled=en, restored=b.getCodeVersion(), name=name, exc=show(exc2)))
+    return Res(cl, nontrivial=en > 0, obs=lambda: dict(fvers=fv, enabled=en, custom=custom, restored=b.getCodeVersion(), name=name, exc=show(exc2)))
